@@ -945,6 +945,84 @@ CONFIG['C06'] = {'assumptions': ['media types in consumes lists, defaults and re
                   '`consumerRan`/`handlerRan` / `Full.decoded` and checked differentially only; for the reflective entry point and the complete '
                   "handler 'the binder ran' is read off the nil error / the handler call"]}
 
+CONFIG['C13'] = {'assumptions': ["Content-Type values, defaults, registry keys and header names are ASCII (Go's Unicode lower-casing/TrimSpace differ beyond ASCII, "
+                 'e.g. U+212A); header names are token characters',
+                 "the wire (RoundTripper) fails the round trip exactly when the request's context is already done, as net/http's Transport does",
+                 'the response to a request is a function of that request (net : Op -> Resp) in the concurrency model'],
+ 'go_entry': 'client.(*Runtime).Submit (client/runtime.go), client.response (client/response.go), mime.ParseMediaType',
+ 'model_fn': 'submit / selectConsumer / parseMediaType / adapterView / chooseClient / chooseCtx',
+ 'partial': ['data-race freedom (Go memory model) is NOT proved: FullStatement keeps it as the parameter DataRaceFree; full_statement_partial proves '
+             'the sequential part and the interleaving part on the step model. Support: stream R in the -race build (tier race), concurrent first '
+             'calls, per-call tokens',
+             'atomicity and happens-before of sync.Once are assumed by the step model, not proved'],
+ 'quick_n': 12000,
+ 'race_n': 60,
+ 'race_thorough_factor': 20,
+ 'rule': 'stream S: Submit on a Runtime whose RoundTripper returns a crafted response: Content-Type values (pool of registered/unregistered types x '
+         "random letter case x leading/trailing blanks x well-formed, malformed and duplicate parameters; malformed values such as ';;', 'text/', 'a "
+         "b/c', byte noise; absent, empty, two lines, any spelling of the header name) x default media type (valid, with parameters, upper case, "
+         "empty, malformed) x registry (random subset of the pool, biased to hold the response's type, with/without '*/*', odd keys: upper case, "
+         'with parameters, lone token, empty) x status code/status text x 0-4 other headers with case-variant names x queried names x random body '
+         'bytes x operation-level vs transport-level client (lazy or NewWithClient) and context (nil/live/cancelled/deadline) x timeout x Debug x '
+         'reader returning an error. Consumers are instrumented (identity = registry key); the reader records what it saw. Stream M: '
+         "mime.ParseMediaType on the part before ';' vs the hand model. Stream R (also run in a -race build, tier race): N goroutines released "
+         'together on one Runtime against an httptest.Server, first calls included, per-call tokens. Stream M is exhaustive over all strings of '
+         'length <= 3 (thorough: <= 5) over {a B / ; blank quote *} plus random values. Non-trivial = every S and R case (all reach the selection or '
+         'the precedence logic; M cases are tagged trivial); distinct = distinct input lines.',
+ 'search_s': 45,
+ 'thorough_n': 150000,
+ 'thorough_seeds': 4,
+ 'trusted_base': ['reading of the property text into the Lean `Spec` (human step, RtVerif/Model/<id>.lean)',
+                  'correspondence check (differential: Go harness /verif/harness -> protocol lines -> compiled Lean driver rtdriver evaluating Model '
+                  'and Spec); coverage bounded by the generators',
+                  "factgen (go/ast extraction of constants/tables into RtVerif/Gen/Facts.lean) and the driver's line parser",
+                  "mime.ParseMediaType (stdlib) is hand-modelled for ';'-free ASCII input (token grammar, lower-casing, TrimSpace) and validated "
+                  'differentially (stream M, and the exact error text in every S case)',
+                  'strconv.Quote/%q is hand-modelled for ASCII; http.Header.Get/Values as case-insensitive lookup over token names; http.Client.Do '
+                  "as 'returns the response the RoundTripper produced for this request' (no redirects: no Location header is generated)",
+                  'sync.Once is modelled as one atomic check-and-set step; the Go memory model is not represented']}
+
+CONFIG['C20'] = {'assumptions': ['requests are built in-process with an arbitrary byte string as r.URL.Path (no wire parsing); page titles and URLs compared '
+                 'literally only when html/template has nothing to escape (plain URLs) or after html.UnescapeString / JS-unescape (titles, printable '
+                 'ASCII)',
+                 "reading: a spec location is 'absolute' when it starts with / or has a scheme, its URL path is rooted and its last element is "
+                 'non-empty; for such locations the spec document path must be clean(path of the location)'],
+ 'go_entry': 'middleware.Spec, Redoc, RapiDoc, SwaggerUI, SwaggerUIOAuth2Callback, Context.APIHandler/APIHandlerSwaggerUI/APIHandlerRapiDoc; '
+             'path.Clean/Join/Split/Base; url.Parse',
+ 'model_fn': 'specMW / uiMW / ensureDefaults / uiOptionsForHandler / apiHandler; GoPath.clean/join/split/base; urlPath',
+ 'partial': ["HTML escaping of option values is html/template's (external): covered by the import-fact theorem and stream X, not by a proof about "
+             'escaping',
+             'url.Parse model: the characterisation theorems cover plain absolute paths and scheme://host/path URLs; locations with port, query, '
+             'fragment or percent escapes (FullStatement_urlPath_general) are validated by stream U and decide-examples only (the agreement theorem '
+             'itself holds for whatever path the URL model yields)'],
+ 'quick_n': 60000,
+ 'rule': 'streams: G (>= 10^5 random byte paths per run over the alphabet / . a b % : * # 0x00 0xff, segment-built and uniform: '
+         'path.Clean/Split/Base/Join vs GoPath); U (url.Parse(..).Path vs the urlPath model: menu of spec locations + grammar-built and random URL '
+         'strings); M (four standalone UI middlewares: BasePath x Path x SpecURL x Title x OAuthCallbackURL menus incl. missing/extra slashes, dot '
+         'segments, HTML metacharacters x with/without next x 10 methods x request paths derived from the document path: exact, trailing slash, dot '
+         'segments, doubled slashes, prefixes, extensions, case change, unrelated, random bytes); S (Spec middleware: base path x up to 3 '
+         'WithSpecPath/WithSpecDocument options x random document bytes x the same request-path variants); H (three API-handler flavours over a '
+         'generated Swagger document: API base path x up to 3 UIOptions (base path, path, spec URL from a menu of 38 locations: absolute URLs, '
+         'absolute paths, relative, with directories, escapes, query/fragment, malformed; title) x methods x request paths around the spec path, the '
+         'UI path and the operations\' paths); X (pages rendered with hostile option values, default and two custom templates: counts of raw < > " '
+         "' compared with the page rendered with benign values). A case is non-trivial unless tagged ~ (paths shorter than 2 bytes in G, URLs "
+         'outside the modelled authority subset); distinct = distinct input lines.',
+ 'search_s': 40,
+ 'thorough_n': 400000,
+ 'thorough_seeds': 3,
+ 'trusted_base': ['reading of the property text into the Lean `Spec` (human step, RtVerif/Model/<id>.lean)',
+                  'correspondence check (differential: Go harness /verif/harness -> protocol lines -> compiled Lean driver rtdriver evaluating Model '
+                  'and Spec); coverage bounded by the generators',
+                  "factgen (go/ast extraction of constants/tables into RtVerif/Gen/Facts.lean) and the driver's line parser",
+                  "html/template's contextual escaping is external: proved is only that every UI file imports html/template (regenerated import "
+                  'table); stream X observes the real pages',
+                  'net/url.Parse is a hand model (urlPath) for authorities of the form [A-Za-z0-9.-]*(:[0-9]*)?, validated by stream U; other '
+                  'authorities are not modelled (cases tagged ~)',
+                  "GoPath (segment-stack formulation of path.Clean's lazybuf loop) is tied to the real path package by stream G only",
+                  'gob round trip between option structs (toCommonUIOptions/fromCommonToAnyOptions) modelled as a copy of the five common fields',
+                  "the API router behind the UI middleware is an opaque terminal handler (C01's subject); 'reachable' means the request arrives "
+                  'there unmodified']}
+
 # properties not claimed (with the reason) and hook commits in /repo (none so far: no hooks needed)
 # built but not yet claimed (with the reason shown in MANIFEST.not_applicable)
 # sub-checks: flows modelled under another property, run (and reported) under this one as well
